@@ -36,8 +36,10 @@ FAMILIES = {}
 family = hw.family_decorator(FAMILIES)
 
 
-RTOL = 1e-12   # transcendental models only (DESIGN 4/C03): element-wise kernels may round the
-ATOL = 1e-12   # (N,T) and the (N,1) evaluation differently; a wrong step index changes values at O(1e-2)
+# Exact (dyadic) features and models are compared bitwise; anything that goes through a logarithm,
+# a Black-Scholes kernel or a matrix product over non-dyadic numbers within hw.tol(dtype)
+# (atol = rtol; derivation there; 1e-12 in float64 as in DESIGN 4/C03): the (N,T) and the (N,1)
+# evaluation may round the same element differently.
 
 
 def _guard(ctx, site, cls, desc, block, fn):
@@ -60,7 +62,8 @@ def _eq(a, b):
 def _close(a, b, exact, scale=1.0):
     if exact:
         return _eq(a, b)
-    return ((a - b).abs() <= ATOL * scale + RTOL * b.abs()) | _eq(a, b)
+    tol = hw.tol(b.dtype)
+    return ((a - b).abs() <= tol * scale + tol * b.abs()) | _eq(a, b)
 
 
 # ----------------------------------------------------------------------------
@@ -146,7 +149,7 @@ def feature_steps(ctx, block):
                               observed=[list(col.shape), str(col.dtype)], expected=[[N, 1, F], str(full.dtype)],
                               block=dict(mini, indices=[i]))
                 continue
-            if tol is None:
+            if tol is None or not hw.is_exact(spec):
                 ok = _close(col, exp, False)
             elif tol:
                 ok = ((col - exp).abs() <= tol) | _eq(col, exp)
@@ -187,12 +190,16 @@ def feature_steps(ctx, block):
         site = "FeatureList.get"
         mini = {"world": w, "features": usable, "indices": block.get("indices")}
         exp_full = torch.cat(parts, dim=-1)
+        exact_col = torch.tensor([hw.is_exact(s_) for s_, k in zip(specs, widths) for _ in range(k)])
+
+        def _eqc(a, b):   # bitwise on exact columns, within tolerance on the others
+            return torch.where(exact_col, _eq(a, b), _close(a, b, False))
         ctx.tick(N * T, nontrivial=N * T)
         if tuple(full.shape) != tuple(exp_full.shape):
             ctx.violation(site, "shape:get(None)", f"FeatureList.get(None) shape {tuple(full.shape)}",
                           observed=list(full.shape), expected=list(exp_full.shape), block=mini)
-        elif not _eq(full, exp_full).all():
-            c = int((~_eq(full, exp_full)).flatten(0, 1).any(0).nonzero()[0])
+        elif not _eqc(full, exp_full).all():
+            c = int((~_eqc(full, exp_full)).flatten(0, 1).any(0).nonzero()[0])
             ctx.violation(site, "column_order:get(None)",
                           f"FeatureList.get(None) column {c} is not feature #{c} of the list "
                           f"({[hw.label(s) for s in specs]})", observed=full[0, :, c].tolist(),
@@ -205,8 +212,8 @@ def feature_steps(ctx, block):
             if tuple(col.shape) != (N, 1, sum(widths)):
                 ctx.violation(site, "shape:get(i)", f"FeatureList.get({i}) shape {tuple(col.shape)}",
                               observed=list(col.shape), expected=[N, 1, sum(widths)], block=mini)
-            elif not _eq(col, exp).all():
-                c = int((~_eq(col, exp)).flatten(0, 1).any(0).nonzero()[0])
+            elif not _eqc(col, exp).all():
+                c = int((~_eqc(col, exp)).flatten(0, 1).any(0).nonzero()[0])
                 ctx.violation(site, "column_order:get(i)",
                               f"FeatureList.get({i}) column {c} is not feature #{c} of the list",
                               observed=col[0, 0].tolist(), expected=exp[0, 0].tolist(), block=mini)
@@ -288,7 +295,7 @@ def hedge_loop(ctx, block):
     trace = kit.recorder.log
     features_at = _parts_fn(kit, world, ctx.seed)
     bad = HL.conform(trace, features_at, N, H, T, world.dtype, final_state=final_state,
-                     exact_part=features_at.exact, rtol=RTOL, atol=ATOL)
+                     exact_part=features_at.exact, rtol=hw.tol(world.dtype), atol=hw.tol(world.dtype))
     for (i, what, obs, exp) in bad:
         ctx.violation(site, f"loop:{what}:{cls_tag}",
                       f"hedge loop deviates from the reference automaton at step {i}: {what} ({desc})",
